@@ -12,7 +12,11 @@ func init() { corrTable["C20"] = corrC20 }
 func corrC20(r *Run) {
 	r.Import("Model.Flags")
 	r.Rule = "octet codecs: all 256 octets per codec (exhaustive) + random unnormalised structs for the encoders; " +
-		"non-trivial = distinct (codec, input) pairs other than octet 0"
+		"absolute time strings: the full product of boundary values of every component (year 00/01/96/99, every month, day 1/28-31, hour 0/23, " +
+		"minute and second 0/59, tenth 0/9, offset 0/1/48, both signs; impossible dates included as malformed input) + random valid strings + a malformed stream; " +
+		"instants: both ends of the representable local range in each of the 97 zones, leap days, random interior, a few far outside; " +
+		"periods: unit boundaries +-0.1 s, dense low grid, coarse grid over the whole range, random; " +
+		"non-trivial = distinct op lines other than octet 0 / the empty string"
 	// --- direct tests on the implementation, exhaustive over octets
 	for b := 0; b < 256; b++ {
 		var e pdu.ESMClass
@@ -70,4 +74,6 @@ func corrC20(r *Run) {
 			r.Sample(map[string]interface{}{"codec": "esm_class encoder", "struct": fmt.Sprintf("%+v", e)})
 		}
 	}
+	// --- the time half: pdu.Time / pdu.Duration (c20_time.go)
+	corrC20Time(r)
 }
